@@ -1,5 +1,6 @@
 import BreezyVerif.Model.C28
 import BreezyVerif.Lemmas.C28
+import BreezyVerif.Lemmas.C28Tree
 /-!
 C28 — reentrant locking takes and releases the physical lock exactly once.
 
@@ -25,12 +26,12 @@ namespace BreezyVerif.C28
 
 /-- For every operation sequence: the physical log is balanced, the physical
 lock is held iff the count is positive iff `is_locked()`. -/
-theorem cl_physical_balanced (ext : Bool) (ops : List Op) :
-    let s := (CL.init ext).run ops
+theorem cl_physical_balanced (ext rb : Bool) (ops : List Op) :
+    let s := (CL.init ext rb).run ops
     Balanced s.phys.log (decide (0 < s.count)) ∧
     (s.phys.held.isSome = true ↔ 0 < s.count) ∧ (s.isLocked = true ↔ 0 < s.count) := by
   intro s
-  have h : s.Inv := CL.inv_run (CL.inv_init ext) ops
+  have h : s.Inv := CL.inv_run (CL.inv_init ext rb) ops
   obtain ⟨h1, h2, h3⟩ := h
   refine ⟨?_, by rw [← h1]; exact h2, h2⟩
   have : s.phys.held.isSome = decide (0 < s.count) := by
@@ -73,7 +74,11 @@ theorem cl_edge (s : CL) (h : s.Inv) (o : Op) :
       have : s.count = 0 := by
         have : ¬ 0 < s.count := fun h => hm (h2.mpr h)
         omega
-      refine ⟨fun _ _ => ⟨.acqR, by decide, rfl⟩, by intro h; omega, by intro h; simp [this] at h⟩
+      split
+      · exact ⟨by intro h0 h; simp only at h; omega, by intro h; omega, by intro; rfl⟩
+      · next p hp =>
+        obtain ⟨rfl, _⟩ := Phys.lockRead_ok hp
+        refine ⟨fun _ _ => ⟨.acqR, by decide, rfl⟩, by intro h; omega, by intro h; simp [this] at h⟩
   | lockWrite tok =>
     simp only [CL.step, CL.lockWrite]
     split
@@ -112,12 +117,12 @@ theorem cl_over_unlock_refused (s : CL) (hc : s.count = 0) :
 
 /-! ### LockableFiles -/
 
-theorem lf_physical_balanced (ext : Bool) (ops : List Op) :
-    let s := (LF.init ext).run ops
+theorem lf_physical_balanced (ext rb : Bool) (ops : List Op) :
+    let s := (LF.init ext rb).run ops
     Balanced s.phys.log (decide (0 < s.count)) ∧
     (s.phys.held.isSome = true ↔ 0 < s.count) ∧ (s.isLocked = true ↔ 0 < s.count) := by
   intro s
-  have h : s.Inv := LF.inv_run (LF.inv_init ext) ops
+  have h : s.Inv := LF.inv_run (LF.inv_init ext rb) ops
   obtain ⟨h1, _, h2, h3⟩ := h
   refine ⟨?_, by rw [← h1]; exact h2, by simp [LF.isLocked]; omega⟩
   have : s.phys.held.isSome = decide (0 < s.count) := by
@@ -142,8 +147,9 @@ theorem lf_ok_count (s : LF) (h : s.Inv) (o : Op) (t : Option Nat)
     if o = .unlock then (s.step o).1.count + 1 = s.count else (s.step o).1.count = s.count + 1 := by
   cases o with
   | lockRead =>
-    obtain ⟨s', e, hc, _, _⟩ := LF.lockRead_spec h
-    simp only [LF.step, e, reduceCtorEq, if_false]; exact hc
+    rcases LF.lockRead_spec h with ⟨_, _, e⟩ | ⟨s', e, hc, _, _⟩
+    · simp only [LF.step, e] at hr; cases hr
+    · simp only [LF.step, e, reduceCtorEq, if_false]; exact hc
   | lockWrite tok =>
     obtain ⟨h1, ht, h2, h3⟩ := h
     simp only [LF.step, LF.lockWrite, reduceCtorEq, if_false] at hr ⊢
@@ -171,8 +177,12 @@ theorem lf_edge (s : LF) (h : s.Inv) (o : Op) :
       have hmn : s.mode = none := by simpa using hm
       have htn : s.txn = none := by rw [ht]; exact hmn
       have hc := hmc (by simp [hmn])
-      simp only [htn, Option.isSome_none, Bool.false_eq_true, if_false]
-      refine ⟨fun _ _ => ⟨.acqR, by decide, rfl⟩, by intro h; omega, by intro h; simp [hc] at h⟩
+      split
+      · exact ⟨by intro h0 h; simp only at h; omega, by intro h; omega, by intro; rfl⟩
+      · next p hp =>
+        obtain ⟨rfl, _⟩ := Phys.lockRead_ok hp
+        simp only [htn, Option.isSome_none, Bool.false_eq_true, if_false]
+        refine ⟨fun _ _ => ⟨.acqR, by decide, rfl⟩, by intro h; omega, by intro h; simp [hc] at h⟩
   | lockWrite tok =>
     simp only [LF.step, LF.lockWrite]
     split
@@ -239,15 +249,15 @@ macro "edge_close" : tactic =>
 /-- For every operation sequence on a PackRepository: the control files'
 physical log and the fallback repositories' log are balanced, the fallbacks are
 locked (once) exactly while the repository is locked. -/
-theorem repo_physical_balanced (ext : Bool) (ops : List Op) :
-    let s := (Repo.init ext).run ops
+theorem repo_physical_balanced (ext rb : Bool) (ops : List Op) :
+    let s := (Repo.init ext rb).run ops
     Balanced s.cf.phys.log s.cf.phys.held.isSome ∧
     (s.cf.phys.held.isSome = true ↔ 0 < s.cf.count) ∧
     (s.isLocked = true ↔ 0 < s.depth) ∧
     (0 < s.depth → s.fb = 1 ∧ Balanced s.fbLog true) ∧
     (s.depth = 0 → s.fb = 0 ∧ Balanced s.fbLog false) := by
   intro s
-  have h : s.Inv := Repo.inv_run (Repo.inv_init ext) ops
+  have h : s.Inv := Repo.inv_run (Repo.inv_init ext rb) ops
   refine ⟨h.cf.bal, ?_, Repo.isLocked_iff s, fun hd => ⟨h.fb_pos hd, h.fb_bal_pos hd⟩,
     fun hd => ⟨h.fb_zero hd, h.fb_bal_zero hd⟩⟩
   rw [← h.cf.mode_held]; exact h.cf.mode_count
@@ -260,7 +270,8 @@ theorem repo_refused_unchanged (s : Repo) (h : s.Inv) (o : Op) (e : Err)
     rcases Repo.lockWrite_spec h tok with ⟨_, _, e⟩ | ⟨_, e⟩ | ⟨_, e⟩ <;> rw [e] at hr ⊢ <;> first | rfl | cases hr
   | lockRead =>
     simp only [Repo.step] at hr ⊢
-    rcases Repo.lockRead_spec h with ⟨_, e⟩ | ⟨_, _, _, _, _, _, e⟩ <;> rw [e] at hr <;> cases hr
+    rcases Repo.lockRead_spec h with ⟨_, e⟩ | ⟨_, _, e⟩ | ⟨_, _, _, _, _, _, e⟩ <;> rw [e] at hr ⊢ <;>
+      first | rfl | cases hr
   | unlock =>
     simp only [Repo.step] at hr ⊢
     rcases Repo.unlock_spec h with ⟨_, e⟩ | ⟨_, e⟩ | ⟨_, _, _, _, _, _, e⟩ <;> rw [e] at hr ⊢ <;>
@@ -278,9 +289,10 @@ theorem repo_ok_count (s : Repo) (h : s.Inv) (o : Op) (t : Option Nat)
     · simp only [Repo.depth] at hd ⊢; omega
   | lockRead =>
     simp only [Repo.step, reduceCtorEq, if_false] at hr ⊢
-    rcases Repo.lockRead_spec h with ⟨_, e⟩ | ⟨_, cf', _, hc, _, _, e⟩ <;> rw [e]
-    · simp only [Repo.depth]; omega
-    · split <;> simp only [Repo.depth] <;> omega
+    rcases Repo.lockRead_spec h with ⟨_, e⟩ | ⟨_, _, e⟩ | ⟨_, cf', _, hc, _, _, e⟩
+    · rw [e]; simp only [Repo.depth]; omega
+    · rw [e] at hr; cases hr
+    · rw [e]; split <;> simp only [Repo.depth] <;> omega
   | unlock =>
     simp only [Repo.step, if_true] at hr ⊢
     rcases Repo.unlock_spec h with ⟨_, e⟩ | ⟨hw, e⟩ | ⟨_, _, cf', _, hc, _, e⟩ <;> rw [e] at hr ⊢
@@ -301,7 +313,8 @@ theorem repo_edge (s : Repo) (h : s.Inv) (o : Op) :
       simp only [Repo.depth] at * <;> refine ⟨?_, ?_, ?_⟩ <;> intros <;> edge_close
   | lockRead =>
     simp only [Repo.step]
-    rcases Repo.lockRead_spec h with ⟨hw, e⟩ | ⟨hw, cf', _, hc, _, _, e⟩ <;> rw [e]
+    rcases Repo.lockRead_spec h with ⟨hw, e⟩ | ⟨hd, _, e⟩ | ⟨hw, cf', _, hc, _, _, e⟩ <;> rw [e]
+    · simp only [Repo.depth] at * <;> refine ⟨?_, ?_, ?_⟩ <;> intros <;> edge_close
     · simp only [Repo.depth] at * <;> refine ⟨?_, ?_, ?_⟩ <;> intros <;> edge_close
     · split <;> simp only [Repo.depth] at * <;> refine ⟨?_, ?_, ?_⟩ <;> intros <;> edge_close
   | unlock =>
@@ -333,8 +346,8 @@ theorem repo_over_unlock_refused (s : Repo) (h : s.Inv) (hd : s.depth = 0) :
 /-- For every interleaving of operations on a branch and directly on its
 repository: the branch's physical log, the repository's control-files log and
 the fallback log are all balanced. -/
-theorem branch_physical_balanced (ext : Bool) (ops : List SOp) :
-    let s := (Branch.init ext).run ops
+theorem branch_physical_balanced (ext rbB rbR : Bool) (ops : List SOp) :
+    let s := (Branch.init ext rbB rbR).run ops
     Balanced s.cf.phys.log s.cf.phys.held.isSome ∧
     (s.cf.phys.held.isSome = true ↔ 0 < s.cf.count) ∧
     (s.isLocked = true ↔ 0 < s.cf.count) ∧
@@ -342,7 +355,7 @@ theorem branch_physical_balanced (ext : Bool) (ops : List SOp) :
     (0 < s.repo.depth → s.repo.fb = 1 ∧ Balanced s.repo.fbLog true) ∧
     (s.repo.depth = 0 → s.repo.fb = 0 ∧ Balanced s.repo.fbLog false) := by
   intro s
-  have h : s.Inv := Branch.inv_run (Branch.inv_init ext) ops
+  have h : s.Inv := Branch.inv_run (Branch.inv_init ext rbB rbR) ops
   refine ⟨h.cf.bal, ?_, ?_, h.repo.cf.bal, fun hd => ⟨h.repo.fb_pos hd, h.repo.fb_bal_pos hd⟩,
     fun hd => ⟨h.repo.fb_zero hd, h.repo.fb_bal_zero hd⟩⟩
   · rw [← h.cf.mode_held]; exact h.cf.mode_count
@@ -394,13 +407,31 @@ theorem branch_refused_unchanged_partial (s : Branch) (h : s.Inv) (hcons : s.Con
   | branch o =>
     cases o with
     | lockRead =>
-      exfalso
-      simp only [Branch.step, Branch.lockRead] at hr
-      obtain ⟨cf', ec, _, _, _⟩ := LF.lockRead_spec h.cf
-      split at hr
-      · rcases Repo.lockRead_spec h.repo with ⟨_, er⟩ | ⟨_, _, _, _, _, _, er⟩ <;>
-          simp [er, ec, Branch.finishLock] at hr
-      · simp [ec, Branch.finishLock] at hr
+      simp only [Branch.step, Branch.lockRead] at hr ⊢
+      by_cases hl : s.isLocked = true
+      · exfalso
+        have hc : 0 < s.cf.count := by simp [Branch.isLocked, LF.isLocked] at hl; omega
+        simp only [hl, Bool.not_true, Bool.false_eq_true, if_false] at hr
+        rcases LF.lockRead_spec h.cf with ⟨hc0, _, _⟩ | ⟨cf', ec, _, _, _⟩
+        · omega
+        · simp [ec, Branch.finishLock] at hr
+      · simp only [hl, Bool.not_false, if_true] at hr ⊢
+        cases hrr : s.repo.lockRead with
+        | mk repo r =>
+          rw [hrr] at hr
+          cases r with
+          | error e' =>
+            have := repo_refused_unchanged s.repo h.repo .lockRead e' (by simp [Repo.step, hrr])
+            simp only [Repo.step, hrr] at this
+            subst this
+            rfl
+          | ok t =>
+            simp only at hr ⊢
+            obtain ⟨r', eu, hcore⟩ := Repo.lockRead_unlock_core h.repo hrr
+            rcases LF.lockRead_spec h.cf with ⟨_, _, ec⟩ | ⟨cf', ec, _, _, _⟩
+            · simp only [ec, Branch.finishLock, if_true, eu]
+              simp only [Branch.core, hcore]
+            · simp [ec, Branch.finishLock] at hr
     | lockWrite tok =>
       simp only [Branch.step, Branch.lockWrite] at hr ⊢
       by_cases hl : s.isLocked = true
@@ -471,7 +502,19 @@ theorem branch_ok_edge (s : Branch) (h : s.Inv) (o : Op) (t : Option Nat)
   cases o with
   | lockRead =>
     simp only [Branch.step, Branch.lockRead, reduceCtorEq, if_false] at hr ⊢
-    obtain ⟨cf', ec, hcc, _, _⟩ := LF.lockRead_spec h.cf
+    rcases LF.lockRead_spec h.cf with ⟨_, _, ec⟩ | ⟨cf', ec, hcc, _, _⟩
+    · exfalso
+      split at hr
+      · cases hrr : s.repo.lockRead with
+        | mk repo r =>
+          rw [hrr] at hr
+          cases r with
+          | error e' => simp at hr
+          | ok t' =>
+            simp only [ec, Branch.finishLock, if_true] at hr
+            cases hu : repo.unlock with
+            | mk r2 res => rw [hu] at hr; cases res <;> simp at hr
+      · simp [ec, Branch.finishLock] at hr
     by_cases hl : s.isLocked = true
     · have hc : 0 < s.cf.count := by simp [Branch.isLocked, LF.isLocked] at hl; omega
       simp only [hl, Bool.not_true, Bool.false_eq_true, if_false, ec, Branch.finishLock]
@@ -579,8 +622,8 @@ theorem branchG_inv_step {s : Branch} (h : s.Inv) (o : SOp) : (s.stepG o).1.Inv 
   · rw [hg.1, branchG_guard s hg.2]; exact h
   · rw [branchG_step_eq s o hg]; exact Branch.inv_step h o
 
-theorem branchG_physical_balanced (ext : Bool) (ops : List SOp) :
-    let s := (Branch.init ext).runG ops
+theorem branchG_physical_balanced (ext rbB rbR : Bool) (ops : List SOp) :
+    let s := (Branch.init ext rbB rbR).runG ops
     Balanced s.cf.phys.log s.cf.phys.held.isSome ∧
     (s.cf.phys.held.isSome = true ↔ 0 < s.cf.count) ∧
     Balanced s.repo.cf.phys.log s.repo.cf.phys.held.isSome ∧
@@ -593,7 +636,7 @@ theorem branchG_physical_balanced (ext : Bool) (ops : List SOp) :
       induction ops with
       | nil => intro s h; exact h
       | cons o ops ih => intro s h; exact ih _ (branchG_inv_step h o)
-    exact this ops _ (Branch.inv_init ext)
+    exact this ops _ (Branch.inv_init ext rbB rbR)
   refine ⟨h.cf.bal, ?_, h.repo.cf.bal, fun hd => ⟨h.repo.fb_pos hd, h.repo.fb_bal_pos hd⟩,
     fun hd => ⟨h.repo.fb_zero hd, h.repo.fb_bal_zero hd⟩⟩
   rw [← h.cf.mode_held]; exact h.cf.mode_count
@@ -629,6 +672,448 @@ theorem branchG_ok_edge (s : Branch) (h : s.Inv) (o : Op) (t : Option Nat)
 /-- the witness of the finding does not exist in the guarded variant -/
 example : ((Branch.init false).run [.repo .lockRead]).stepG (.branch .unlock) =
     ((Branch.init false).run [.repo .lockRead], .error .notHeld) := by decide
+
+/-! ### `Consistent` is an invariant of everything but a caller's own `repository.unlock()` -/
+
+/-- Every step of the guarded stack other than a `repository.unlock()` issued directly
+by a caller preserves "a locked branch holds its repository". -/
+theorem branchG_consistent_step (s : Branch) (h : s.Inv) (hcons : s.Consistent) (o : SOp)
+    (ho : o ≠ .repo .unlock) : (s.stepG o).1.Consistent := by
+  cases hres : (s.stepG o).2 with
+  | error e =>
+    have hcore := branchG_refused_unchanged s h hcons o e hres
+    obtain ⟨h1, h2⟩ := Branch.lcore_counts (Branch.lcore_of_core hcore)
+    intro hpos
+    have := hcons (by omega)
+    omega
+  | ok t =>
+    cases o with
+    | branch o =>
+      obtain ⟨_, h2, _, h4⟩ := branchG_ok_edge s h o t hres
+      intro hpos
+      by_cases hc : s.cf.count = 0
+      · have := h2 hc; omega
+      · rw [h4 (by omega) hpos]; exact hcons (by omega)
+    | repo o =>
+      rw [Branch.stepG_repo] at hres ⊢
+      have hd := repo_ok_count s.repo h.repo o t hres
+      have hne : o ≠ .unlock := fun hx => ho (by rw [hx])
+      simp only [hne, if_false] at hd
+      intro _
+      show 0 < (s.repo.step o).1.depth
+      omega
+
+theorem branchG_consistent_run (s : Branch) (h : s.Inv) (hcons : s.Consistent) (ops : List SOp)
+    (hops : ∀ o ∈ ops, o ≠ SOp.repo .unlock) : (s.runG ops).Inv ∧ (s.runG ops).Consistent := by
+  induction ops generalizing s with
+  | nil => exact ⟨h, hcons⟩
+  | cons o ops ih =>
+    exact ih _ (branchG_inv_step h o)
+      (branchG_consistent_step s h hcons o (hops o (List.mem_cons_self ..)))
+      (fun o' ho' => hops o' (List.mem_cons_of_mem _ ho'))
+
+/-- `branchG_refused_unchanged` without the `Consistent` hypothesis: after ANY sequence of
+branch and repository calls that contains no direct `repository.unlock()`, from any
+initial situation, a refused call leaves the lock state of the whole stack unchanged. -/
+theorem branchG_refused_unchanged_run (ext rbB rbR : Bool) (ops : List SOp)
+    (hops : ∀ o ∈ ops, o ≠ SOp.repo .unlock) (o : SOp) (e : Err)
+    (hr : (((Branch.init ext rbB rbR).runG ops).stepG o).2 = .error e) :
+    (((Branch.init ext rbB rbR).runG ops).stepG o).1.core = ((Branch.init ext rbB rbR).runG ops).core := by
+  have hinit : (Branch.init ext rbB rbR).Consistent := by
+    intro h; simp [Branch.init, LF.init] at h
+  obtain ⟨hi, hc⟩ := branchG_consistent_run _ (Branch.inv_init ext rbB rbR) hinit ops hops
+  exact branchG_refused_unchanged _ hi hc o e hr
+
+/-- the hypothesis is needed: a caller's `repository.unlock()` behind a locked branch's back breaks it -/
+example : ¬ ((Branch.init false).runG [.branch .lockRead, .repo .unlock]).Consistent := by
+  intro h
+  have := h (by decide)
+  revert this
+  decide
+
+/-- a sequence satisfying the hypothesis of `branchG_refused_unchanged_run` in which calls are
+refused (write after read, read on a refusing physical lock) and locks are nested -/
+example : (∀ o ∈ [SOp.branch .lockRead, .repo .lockRead, .branch (.lockWrite none), .branch .unlock],
+      o ≠ SOp.repo .unlock) ∧
+    (((Branch.init false).runG [.branch .lockRead, .repo .lockRead]).stepG (.branch (.lockWrite none))).2
+      = .error .readOnly ∧
+    ((Branch.init false true false).stepG (.branch .lockRead)).2 = .error .contention ∧
+    ((Branch.init false true false).stepG (.branch .lockRead)).1.repo.fbLog = [.acqR, .rel] := by
+  refine ⟨by decide, by decide, by decide, by decide⟩
+
+/-! ### bzr working trees over the (guarded) branch — `Tree.step` is the code in /repo -/
+
+/-- For every interleaving of calls on a working tree, on its branch and on its
+repository, from every initial situation: the physical logs of all three
+control-files locks and of the fallback repositories are balanced, and each
+`is_locked()` agrees with its count. -/
+theorem tree_physical_balanced (ext rbT rbB rbR : Bool) (ops : List TOp) :
+    let s := (Tree.init ext rbT rbB rbR).run ops
+    Balanced s.cf.phys.log s.cf.phys.held.isSome ∧
+    (s.cf.phys.held.isSome = true ↔ 0 < s.cf.count) ∧
+    (s.isLocked = true ↔ 0 < s.cf.count) ∧
+    Balanced s.branch.cf.phys.log s.branch.cf.phys.held.isSome ∧
+    (s.branch.cf.phys.held.isSome = true ↔ 0 < s.branch.cf.count) ∧
+    Balanced s.branch.repo.cf.phys.log s.branch.repo.cf.phys.held.isSome ∧
+    (0 < s.branch.repo.depth → s.branch.repo.fb = 1 ∧ Balanced s.branch.repo.fbLog true) ∧
+    (s.branch.repo.depth = 0 → s.branch.repo.fb = 0 ∧ Balanced s.branch.repo.fbLog false) := by
+  intro s
+  have h : s.Inv := Tree.inv_run (Tree.inv_init ext rbT rbB rbR) ops
+  refine ⟨h.cf.bal, ?_, ?_, h.branch.cf.bal, ?_, h.branch.repo.cf.bal,
+    fun hd => ⟨h.branch.repo.fb_pos hd, h.branch.repo.fb_bal_pos hd⟩,
+    fun hd => ⟨h.branch.repo.fb_zero hd, h.branch.repo.fb_bal_zero hd⟩⟩
+  · rw [← h.cf.mode_held]; exact h.cf.mode_count
+  · simp [Tree.isLocked, LF.isLocked]; omega
+  · rw [← h.branch.cf.mode_held]; exact h.branch.cf.mode_count
+
+/-- FINDING (committed known finding `tree-over-unlock-releases-branch`).  A refused
+`tree.unlock()` changes the lock state: with the branch read-locked once by another
+holder and the tree unlocked, `unlock` raises `LockNotHeld` *and* releases the branch's
+lock, the repository's lock and the fallbacks. -/
+theorem tree_over_unlock_witness :
+    let s := (Tree.init false).run [.branch .lockRead]
+    s.isLocked = false ∧ s.branch.isLocked = true ∧ s.branch.repo.fb = 1 ∧
+    (s.step (.tree .unlock)).2 = .error .notHeld ∧
+    (s.step (.tree .unlock)).1.branch.isLocked = false ∧
+    (s.step (.tree .unlock)).1.branch.repo.isLocked = false ∧
+    (s.step (.tree .unlock)).1.branch.repo.fb = 0 := by decide
+
+/-- control files: a granted call moves the count by one, and touches the physical lock
+exactly on the edges -/
+theorem lf_ok_edge (s : LF) (h : s.Inv) (o : Op) (t : Option Nat) (hr : (s.step o).2 = .ok t) :
+    (if o = .unlock then (s.step o).1.count + 1 = s.count else (s.step o).1.count = s.count + 1) ∧
+    (s.count = 0 → ∃ e, e ≠ Ev.rel ∧ (s.step o).1.phys.log = s.phys.log ++ [e]) ∧
+    ((s.step o).1.count = 0 → (s.step o).1.phys.log = s.phys.log ++ [.rel]) ∧
+    (0 < s.count → 0 < (s.step o).1.count → (s.step o).1.phys.log = s.phys.log) := by
+  have hc := lf_ok_count s h o t hr
+  obtain ⟨e1, e2, e3⟩ := lf_edge s h o
+  refine ⟨hc, ?_, ?_, ?_⟩
+  · intro h0; apply e1 h0; split at hc <;> omega
+  · intro h0; apply e2 _ h0; split at hc <;> omega
+  · intro h0 h1; apply e3; constructor <;> intro <;> omega
+
+/-- A granted tree call is exactly one granted call on the tree's own control files
+(`lf_ok_edge`: count ± 1, physical lock touched on the edges only) plus exactly one
+granted call of the same direction on the branch (`branchG_ok_edge`): every tree lock
+holds one branch lock, every tree unlock gives one back. -/
+theorem tree_ok_edge (s : Tree) (h : s.Inv) (o : TreeOp) (t : Option Nat)
+    (hr : (s.step (.tree o)).2 = .ok t) :
+    (if o = .unlock then (s.step (.tree o)).1.cf.count + 1 = s.cf.count ∧
+        (s.step (.tree o)).1.branch.cf.count + 1 = s.branch.cf.count
+      else (s.step (.tree o)).1.cf.count = s.cf.count + 1 ∧
+        (s.step (.tree o)).1.branch.cf.count = s.branch.cf.count + 1) ∧
+    (s.cf.count = 0 → ∃ e, e ≠ Ev.rel ∧ (s.step (.tree o)).1.cf.phys.log = s.cf.phys.log ++ [e]) ∧
+    ((s.step (.tree o)).1.cf.count = 0 → (s.step (.tree o)).1.cf.phys.log = s.cf.phys.log ++ [.rel]) ∧
+    (0 < s.cf.count → 0 < (s.step (.tree o)).1.cf.count →
+      (s.step (.tree o)).1.cf.phys.log = s.cf.phys.log) := by
+  obtain ⟨tb, tc, hb, hc, hs⟩ := Tree.step_ok o hr
+  rw [hs]
+  obtain ⟨c1, c2, c3, c4⟩ := lf_ok_edge s.cf h.cf o.cfOp tc hc
+  obtain ⟨b1, _⟩ := branchG_ok_edge s.branch h.branch o.branchOp tb hb
+  refine ⟨?_, c2, c3, c4⟩
+  cases o <;> simp only [TreeOp.cfOp, TreeOp.branchOp, reduceCtorEq, if_false, if_true] at c1 b1 ⊢ <;>
+    exact ⟨c1, b1⟩
+
+/-- a refused call on the tree, its branch or its repository leaves the lock state
+(`lcore`: everything but the logs and the stale `_token_from_lock`) of the whole stack
+unchanged — PARTIAL: except for `unlock` of an unlocked tree whose branch is locked by
+another holder (`tree_over_unlock_witness`).  Lock calls that fail half way (branch
+locked, own control files refuse) give the branch lock back. -/
+theorem tree_refused_unchanged_partial (s : Tree) (h : s.Inv) (hcons : s.Consistent) (o : TOp)
+    (e : Err) (hr : (s.step o).2 = .error e)
+    (hex : ¬ (o = .tree .unlock ∧ s.cf.count = 0 ∧ 0 < s.branch.cf.count)) :
+    (s.step o).1.lcore = s.lcore := by
+  have hbr : ∀ (bo : Op) (e : Err), (s.branch.stepG (.branch bo)).2 = .error e →
+      (s.branch.stepG (.branch bo)).1.core = s.branch.core :=
+    fun bo e he => branchG_refused_unchanged s.branch h.branch hcons.branch (.branch bo) e he
+  cases o with
+  | branch o =>
+    simp only [Tree.step] at hr ⊢
+    simp only [Tree.lcore, Branch.lcore_of_core (hbr o e hr)]
+  | repo o =>
+    simp only [Tree.step] at hr ⊢
+    have := branchG_refused_unchanged s.branch h.branch hcons.branch (.repo o) e hr
+    simp only [Tree.lcore, Branch.lcore_of_core this]
+  | tree o =>
+    cases o with
+    | lockRead =>
+      exact Tree.lockVia_refused h .lockRead (by decide) _
+        (fun e he => lf_refused_unchanged s.cf h.cf .lockRead e he) (hbr _) hr
+    | lockTreeWrite =>
+      exact Tree.lockVia_refused h .lockRead (by decide) _
+        (fun e he => lf_refused_unchanged s.cf h.cf (.lockWrite none) e he) (hbr _) hr
+    | lockWrite =>
+      exact Tree.lockVia_refused h (.lockWrite none) (by decide) _
+        (fun e he => lf_refused_unchanged s.cf h.cf (.lockWrite none) e he) (hbr _) hr
+    | unlock =>
+      simp only [Tree.step, Tree.unlock] at hr ⊢
+      rcases LF.unlock_spec h.cf with ⟨hc, eu⟩ | ⟨hc, cf', eu, hcc, _⟩
+      · have hb0 : s.branch.cf.count = 0 := by
+          cases hb : s.branch.cf.count with
+          | zero => rfl
+          | succ n => exact absurd ⟨rfl, hc, by omega⟩ hex
+        simp only [eu, Branch.stepG_guard s.branch hb0]
+      · exfalso
+        obtain ⟨b, eb, _⟩ := Branch.unlock_ok h.branch hcons.branch (hcons.tree hc)
+        simp [eu, eb] at hr
+
+/-- a write lock (`lock_write` or `lock_tree_write`) requested on a read-locked tree is
+refused with `ReadOnlyError` (and, by `tree_refused_unchanged_partial`, changes nothing) -/
+theorem tree_write_after_read_refused (s : Tree) (h : s.Inv) (hcons : s.Consistent)
+    (hm : s.cf.mode = some .r) (o : TreeOp) (ho : o = .lockWrite ∨ o = .lockTreeWrite) :
+    (s.step (.tree o)).2 = .error .readOnly ∧ (s.step (.tree o)).1.lcore = s.lcore := by
+  have hc : 0 < s.cf.count := h.cf.mode_count.mp (by simp [hm])
+  have hbc : 0 < s.branch.cf.count := hcons.tree hc
+  have hself : (s.cf.lockWrite none).2 = .error .readOnly := by
+    have := lf_write_after_read_refused s.cf hm none
+    simp only [LF.step] at this
+    rw [this]
+  have hres : (s.step (.tree o)).2 = .error .readOnly := by
+    rcases ho with rfl | rfl
+    · -- lock_write: branch.lock_write() on a locked branch is granted or ReadOnlyError
+      simp only [Tree.step, Tree.lockWrite]
+      rcases hb : s.branch.stepG (.branch (.lockWrite none)) with ⟨b, rb⟩
+      cases rb with
+      | ok tb => exact Tree.lockVia_self_refused h _ (by decide) _ hb hself
+      | error e' =>
+        have hl : s.branch.isLocked = true := by simp [Branch.isLocked, LF.isLocked]; omega
+        simp only [Branch.stepG, Branch.step, Branch.lockWrite, hl, Bool.not_true, Bool.false_eq_true,
+          if_false] at hb
+        rcases LF.lockWrite_none_locked h.branch.cf hbc with ⟨cf', t', ew⟩ | ew
+        · simp [ew, Branch.finishLock] at hb
+        · simp only [ew, Branch.finishLock, Bool.false_eq_true, if_false] at hb
+          have : e' = .readOnly := by
+            have := (Prod.mk.inj hb).2
+            injection this with this
+            exact this.symm
+          subst this
+          simp only [Tree.lockVia, Branch.stepG, Branch.step, Branch.lockWrite, hl, Bool.not_true,
+            Bool.false_eq_true, if_false, ew, Branch.finishLock]
+    · -- lock_tree_write: branch.lock_read() on a locked branch is granted
+      simp only [Tree.step, Tree.lockTreeWrite]
+      rcases hb : s.branch.stepG (.branch .lockRead) with ⟨b, rb⟩
+      cases rb with
+      | ok tb => exact Tree.lockVia_self_refused h _ (by decide) _ hb hself
+      | error e' =>
+        exfalso
+        have hl : s.branch.isLocked = true := by simp [Branch.isLocked, LF.isLocked]; omega
+        simp only [Branch.stepG, Branch.step, Branch.lockRead, hl, Bool.not_true, Bool.false_eq_true,
+          if_false] at hb
+        rcases LF.lockRead_spec h.branch.cf with ⟨h0, _⟩ | ⟨cf', ec, _⟩
+        · omega
+        · simp [ec, Branch.finishLock] at hb
+  refine ⟨hres, tree_refused_unchanged_partial s h hcons (.tree o) .readOnly hres ?_⟩
+  rintro ⟨ho', _⟩
+  rcases ho with rfl | rfl <;> cases ho'
+
+/-! #### the guarded tree (`Tree.stepG`: the fix that had to be reverted) — no exception left -/
+
+theorem treeG_over_unlock_refused (s : Tree) (hc : s.cf.count = 0) :
+    s.stepG (.tree .unlock) = (s, .error .notHeld) := Tree.stepG_guard s hc
+
+theorem treeG_refused_unchanged (s : Tree) (h : s.Inv) (hcons : s.Consistent) (o : TOp)
+    (e : Err) (hr : (s.stepG o).2 = .error e) : (s.stepG o).1.lcore = s.lcore := by
+  by_cases hg : o = .tree .unlock ∧ s.cf.count = 0
+  · rw [hg.1, Tree.stepG_guard s hg.2]
+  · rw [Tree.stepG_eq s o hg] at hr ⊢
+    exact tree_refused_unchanged_partial s h hcons o e hr (fun hx => hg ⟨hx.1, hx.2.1⟩)
+
+theorem treeG_physical_balanced (ext rbT rbB rbR : Bool) (ops : List TOp) :
+    let s := (Tree.init ext rbT rbB rbR).runG ops
+    Balanced s.cf.phys.log s.cf.phys.held.isSome ∧
+    (s.cf.phys.held.isSome = true ↔ 0 < s.cf.count) ∧
+    Balanced s.branch.cf.phys.log s.branch.cf.phys.held.isSome ∧
+    (s.branch.cf.phys.held.isSome = true ↔ 0 < s.branch.cf.count) := by
+  intro s
+  have h : s.Inv := Tree.inv_runG (Tree.inv_init ext rbT rbB rbR) ops
+  refine ⟨h.cf.bal, ?_, h.branch.cf.bal, ?_⟩
+  · rw [← h.cf.mode_held]; exact h.cf.mode_count
+  · rw [← h.branch.cf.mode_held]; exact h.branch.cf.mode_count
+
+/-- the witness of the finding does not exist in the guarded variant -/
+example : ((Tree.init false).run [.branch .lockRead]).stepG (.tree .unlock) =
+    ((Tree.init false).run [.branch .lockRead], .error .notHeld) := by decide
+
+/-- hypotheses of `tree_refused_unchanged_partial` / `tree_write_after_read_refused` hold, and calls
+are refused, in reachable states: a read-locked tree over a branch somebody else write-locked first
+(the roll-back path: `branch.lock_write()` is granted, the tree's control files refuse, the branch
+lock is given back), and a tree whose own lock refuses `lock_read()` -/
+example : ((Tree.init false).run [.branch (.lockWrite none), .tree .lockRead]).cf.mode = some .r ∧
+    (((Tree.init false).run [.branch (.lockWrite none), .tree .lockRead]).step (.tree .lockWrite)).2
+      = .error .readOnly ∧
+    (((Tree.init false).run [.branch (.lockWrite none), .tree .lockRead]).step (.tree .lockWrite)).1.branch.cf.count
+      = 2 := by decide
+
+example : ((Tree.init false).run [.branch (.lockWrite none), .tree .lockRead]).Consistent :=
+  ⟨fun _ => by decide, fun _ => by decide⟩
+
+example : ((Tree.init false true).step (.tree .lockRead)).2 = .error .contention ∧
+    ((Tree.init false true).step (.tree .lockRead)).1.branch.cf.phys.log = [.acqR, .rel] ∧
+    ((Tree.init false true).step (.tree .lockRead)).1.lcore = (Tree.init false true).lcore := by decide
+
+/-! ### write groups: `PackRepository.unlock` inside a write group -/
+
+/-- with no write group active the write-group-aware step IS the plain repository step
+(every `repo_*` theorem applies), and no group appears by itself -/
+theorem repow_no_group (fx : Bool) (s : RepoW) (hw : s.wg = false) (o : Op) :
+    s.step fx (.op o) = ({ s with repo := (s.repo.step o).1 }, (s.repo.step o).2) := by
+  cases o <;> simp [RepoW.step, RepoW.unlock, hw, Repo.step]
+
+/-- FINDING (code as found, `fx = false`).  The last `unlock()` of a write-locked
+`PackRepository` while a write group is active aborts the group and returns `None`
+(the `BzrError` is discarded by `only_raises`); the repository is unlocked, but its
+fallback repositories — locked on the 0→1 edge — are NOT released on this 1→0 edge. -/
+theorem repo_unlock_in_write_group_witness :
+    let s := (RepoW.init false).run false [.op (.lockWrite none), .startWG]
+    s.repo.isLocked = true ∧ s.repo.fb = 1 ∧ s.wg = true ∧
+    (s.step false (.op .unlock)).2 = .ok none ∧
+    (s.step false (.op .unlock)).1.repo.isLocked = false ∧
+    (s.step false (.op .unlock)).1.repo.fb = 1 ∧
+    (s.step false (.op .unlock)).1.repo.fbLog = [.acqR] := by decide
+
+/-- a write group is only ever active under a write lock -/
+def RepoW.Inv (s : RepoW) : Prop := s.repo.Inv ∧ (s.wg = true → 0 < s.repo.wcount)
+
+/-- With the proposed fix (`fx = true`): in EVERY state satisfying the invariant in which
+the last write lock is released inside a write group, the call returns, the group is
+gone, the repository is unlocked, the fallbacks are released exactly once, and the
+invariant holds again. -/
+theorem repowF_unlock_in_write_group (s : RepoW) (h : s.repo.Inv) (hw : s.repo.wcount = 1)
+    (hg : s.wg = true) :
+    (s.step true (.op .unlock)).2 = .ok none ∧ (s.step true (.op .unlock)).1.wg = false ∧
+    (s.step true (.op .unlock)).1.repo.depth = 0 ∧ (s.step true (.op .unlock)).1.repo.fb = 0 ∧
+    (s.step true (.op .unlock)).1.repo.fbLog = s.repo.fbLog ++ [.rel] ∧
+    (s.step true (.op .unlock)).1.repo.Inv := by
+  have hc : s.repo.cf.count = 0 := by
+    rcases h.excl with h0 | h0
+    · omega
+    · exact h0
+  have hd : 0 < s.repo.depth := by simp only [Repo.depth]; omega
+  have hfb := h.fb_pos hd
+  have hbal := (h.fb_bal_pos hd).release
+  have hl : ({ s.repo with wcount := 0 } : Repo).isLocked = false := by
+    simp [Repo.isLocked, LF.isLocked, hc]
+  simp only [RepoW.step, RepoW.unlock, hw, hg, Bool.and_self, decide_true, if_true, hl, Bool.not_false]
+  refine ⟨trivial, trivial, by simp [Repo.depth, hc], by simp [hfb], trivial, ?_⟩
+  exact ⟨h.cf, Or.inl rfl, by intro h0; simp [Repo.depth, hc] at h0, fun _ => by simp [hfb],
+    by intro h0; simp [Repo.depth, hc] at h0, fun _ => hbal⟩
+
+/-- with the fix the invariant (balanced logs, fallbacks locked exactly while the
+repository is) survives every sequence of lock calls AND write-group calls -/
+theorem repowF_inv_step (s : RepoW) (h : s.Inv) (o : WOp) : (s.step true o).1.Inv := by
+  obtain ⟨hi, hwg⟩ := h
+  cases o with
+  | startWG =>
+    simp only [RepoW.step]
+    split
+    · exact ⟨hi, hwg⟩
+    · next hw =>
+      split
+      · exact ⟨hi, hwg⟩
+      · exact ⟨hi, fun _ => by show 0 < s.repo.wcount; omega⟩
+  | abortWG =>
+    simp only [RepoW.step]
+    split
+    · exact ⟨hi, hwg⟩
+    · exact ⟨hi, by intro h0; cases h0⟩
+  | op o =>
+    by_cases hg : s.wg = true
+    · have hpos := hwg hg
+      cases o with
+      | unlock =>
+        by_cases h1 : s.repo.wcount = 1
+        · obtain ⟨_, h2, _, _, _, h6⟩ := repowF_unlock_in_write_group s hi h1 hg
+          exact ⟨h6, by intro h0; rw [h2] at h0; cases h0⟩
+        · have hne : (s.repo.wcount = 1 && s.wg) = false := by simp [h1]
+          simp only [RepoW.step, RepoW.unlock, hne, Bool.false_eq_true, if_false]
+          refine ⟨Repo.inv_step hi .unlock, fun _ => ?_⟩
+          rcases Repo.unlock_spec hi with ⟨hd, _⟩ | ⟨_, e⟩ | ⟨hw0, _⟩
+          · simp only [Repo.depth] at hd; omega
+          · have h2 : 1 < s.repo.wcount := by omega
+            rw [e]; simp only [h2, if_true]; omega
+          · omega
+      | lockRead =>
+        simp only [RepoW.step]
+        refine ⟨Repo.inv_step hi .lockRead, fun _ => ?_⟩
+        rcases Repo.lockRead_spec hi with ⟨_, e⟩ | ⟨hd, _⟩ | ⟨hw0, _⟩
+        · simp only [Repo.step, e]; omega
+        · simp only [Repo.depth] at hd; omega
+        · omega
+      | lockWrite tok =>
+        simp only [RepoW.step]
+        refine ⟨Repo.inv_step hi (.lockWrite tok), fun _ => ?_⟩
+        rcases Repo.lockWrite_spec hi tok with ⟨hw0, _⟩ | ⟨_, e⟩ | ⟨hd, _⟩
+        · omega
+        · simp only [Repo.step, e]; omega
+        · simp only [Repo.depth] at hd; omega
+    · have hg' : s.wg = false := by simpa using hg
+      rw [repow_no_group true s hg' o]
+      exact ⟨Repo.inv_step hi o, by intro h0; simp only [hg'] at h0; cases h0⟩
+
+theorem repowF_physical_balanced (ext rb : Bool) (ops : List WOp) :
+    let s := (RepoW.init ext rb).run true ops
+    Balanced s.repo.cf.phys.log s.repo.cf.phys.held.isSome ∧
+    (s.repo.isLocked = true ↔ 0 < s.repo.depth) ∧
+    (0 < s.repo.depth → s.repo.fb = 1 ∧ Balanced s.repo.fbLog true) ∧
+    (s.repo.depth = 0 → s.repo.fb = 0 ∧ Balanced s.repo.fbLog false) ∧
+    (s.wg = true → 0 < s.repo.wcount) := by
+  intro s
+  have h : s.Inv := by
+    have : ∀ (ops : List WOp) (s : RepoW), s.Inv → (s.run true ops).Inv := by
+      intro ops
+      induction ops with
+      | nil => intro s h; exact h
+      | cons o ops ih => intro s h; exact ih _ (repowF_inv_step s h o)
+    exact this ops _ ⟨Repo.inv_init ext rb, by intro h0; cases h0⟩
+  exact ⟨h.1.cf.bal, Repo.isLocked_iff _, fun hd => ⟨h.1.fb_pos hd, h.1.fb_bal_pos hd⟩,
+    fun hd => ⟨h.1.fb_zero hd, h.1.fb_bal_zero hd⟩, h.2⟩
+
+/-- hypotheses of `repowF_unlock_in_write_group` hold in a reachable state -/
+example : ((RepoW.init false).run true [.op (.lockWrite none), .startWG]).repo.wcount = 1 ∧
+    ((RepoW.init false).run true [.op (.lockWrite none), .startWG]).wg = true ∧
+    ((RepoW.init false).run true [.op (.lockWrite none), .startWG, .op .unlock]).repo.fbLog = [.acqR, .rel] := by
+  decide
+
+/-! ### `BzrBranch.unlock` with a config store that fails to save -/
+
+/-- without a failing store the step IS the guarded branch step (every `branchG_*` theorem applies) -/
+theorem branchS_no_failure (fx : Bool) (s : BranchS) (hs : s.saveFails = false) (o : SOp) :
+    s.step fx o = ({ s with b := (s.b.stepG o).1 }, (s.b.stepG o).2) := by
+  cases o with
+  | repo o => rfl
+  | branch o =>
+    cases o with
+    | lockRead => rfl
+    | lockWrite t => rfl
+    | unlock =>
+      simp only [BranchS.step, Branch.stepG, hs, Bool.and_false, Bool.false_and, Bool.false_eq_true, if_false]
+      split <;> first | rfl | (cases s; simp_all)
+
+/-- with the proposed fix a failing store changes nothing about the locks: the step IS
+the guarded branch step, whatever the store does -/
+theorem branchS_fixed_eq (s : BranchS) (o : SOp) :
+    s.step true o = ({ s with b := (s.b.stepG o).1 }, (s.b.stepG o).2) := by
+  cases o with
+  | repo o => rfl
+  | branch o =>
+    cases o with
+    | lockRead => rfl
+    | lockWrite t => rfl
+    | unlock =>
+      simp only [BranchS.step, Branch.stepG, Bool.not_true, Bool.and_false, Bool.false_eq_true, if_false]
+      split <;> first | rfl | (cases s; simp_all)
+
+/-- FINDING (code as found, `fx = false`).  The matching last `unlock()` of a branch whose
+config store fails in `save_changes()` returns `None` (the exception is discarded by
+`only_raises`) and releases nothing: branch, repository and the physical lock stay held. -/
+theorem branch_unlock_save_failure_witness :
+    let s := (BranchS.init false true).run false [.branch (.lockWrite none)]
+    s.b.cf.count = 1 ∧ s.b.cf.phys.held = some .w ∧
+    (s.step false (.branch .unlock)).2 = .ok none ∧
+    (s.step false (.branch .unlock)).1 = s ∧
+    (s.step true (.branch .unlock)).1.b.isLocked = false ∧
+    (s.step true (.branch .unlock)).1.b.cf.phys.held = none ∧
+    (s.step true (.branch .unlock)).1.b.repo.isLocked = false := by decide
 
 /-! ### non-vacuity: reachable, non-trivial states satisfy the hypotheses -/
 
